@@ -8,6 +8,11 @@
 // it inserts `__vp("<file>:<line>:<kind>")`.  The helper zz_vp.go (added to the package
 // through the overlay's Replace map) yields or sleeps briefly there, driven by the seed in
 // $VERIF_VP_SEED, and counts the calls into $VERIF_VP_COUNT_FILE.  Writes <out>/overlay.json.
+//
+// Second pass (trace logging, see vl.go): every synchronisation operation of relay.go and the
+// consumption steps of trzszBuffer.readLine are routed through `__vl…` wrappers that, when
+// $VERIF_VL=1, append one event (goroutine role, program point, operation, observed value) to
+// an in-memory per-relay log in real order.  Writes <out>/points.txt (the point table).
 package main
 
 import (
@@ -45,7 +50,7 @@ func kindOf(n ast.Node) string {
 		case *ast.CallExpr:
 			if se, ok := v.Fun.(*ast.SelectorExpr); ok {
 				switch se.Sel.Name {
-				case "Lock", "Unlock", "Load", "Store", "CompareAndSwap", "addBuffer", "popBuffer", "readLine", "readLineOnWindows":
+				case "Lock", "Unlock", "Load", "Store", "CompareAndSwap", "Swap", "addBuffer", "popBuffer", "readLine", "readLineOnWindows":
 					kind = se.Sel.Name
 				}
 			}
@@ -115,9 +120,12 @@ func instrument(fset *token.FileSet, list []ast.Stmt, file string, count *int) [
 const helper = `package trzsz
 
 import (
+	"encoding/hex"
+	"fmt"
 	"os"
 	"runtime"
 	"strconv"
+	"sync"
 	"sync/atomic"
 	"time"
 )
@@ -171,6 +179,13 @@ func main() {
 				fd.Body.List = instrument(fset, fd.Body.List, name, &n)
 			}
 		}
+		nl := len(vlPoints)
+		for _, d := range f.Decls {
+			if fd, ok := d.(*ast.FuncDecl); ok && fd.Body != nil {
+				vlFunc(fset, fd, name)
+			}
+		}
+		fmt.Fprintf(os.Stderr, "overlay: %s: %d logged points\n", name, len(vlPoints)-nl)
 		var buf bytes.Buffer
 		if err := printer.Fprint(&buf, fset, f); err != nil {
 			fmt.Fprintln(os.Stderr, "overlay:", err)
@@ -189,7 +204,11 @@ func main() {
 		}
 	}
 	hp := filepath.Join(outDir, "zz_vp.go")
-	if err := os.WriteFile(hp, []byte(helper), 0644); err != nil {
+	if err := os.WriteFile(filepath.Join(outDir, "points.txt"), []byte(vlPointTable()), 0644); err != nil {
+		fmt.Fprintln(os.Stderr, "overlay:", err)
+		os.Exit(1)
+	}
+	if err := os.WriteFile(hp, []byte(helper+vlHelper+vlGenerated()), 0644); err != nil {
 		fmt.Fprintln(os.Stderr, "overlay:", err)
 		os.Exit(1)
 	}
